@@ -20,7 +20,7 @@ SHAPES = ["_", "__", "_1", "__x__", "a_b", "_a", "a_", "a__b", "A_b", "x1", "ä"
 
 POSITIONS = [
     "function", "method", "class", "nested_class", "parameter", "ctor_parameter", "class_attr", "inst_attr", "property",
-    "doc_result_name", "enum", "enum_member", "type_parameter", "class_type_parameter", "imported_class", "module_name", "package_name",
+    "doc_result_name", "enum", "enum_member", "type_parameter", "class_type_parameter", "ctor_type_parameter", "imported_class", "module_name", "package_name",
     "superclass", "foreign_class",
 ]  # fmt: skip
 
@@ -74,6 +74,9 @@ def render_position(pos: str, n: str, u: str) -> dict[str, str]:
         return {m: f'from typing import TypeVar\n\n{n} = TypeVar("{n}")\n\n\ndef f{u}(a: {n}) -> {n}:\n    ...\n'}
     if pos == "class_type_parameter":
         return {m: f'from typing import Generic, TypeVar\n\n{n} = TypeVar("{n}")\n\n\nclass C{u}(Generic[{n}]):\n    def f(self, a: {n}) -> {n}:\n        ...\n'}
+    if pos == "ctor_type_parameter":
+        # the class does not list the type variable itself: it becomes a class type parameter through the constructor
+        return {m: f'from typing import TypeVar\n\n{n} = TypeVar("{n}")\n\n\nclass C{u}:\n    def __init__(self, a: {n}) -> None:\n        ...\n\n    def g(self, b: {n}) -> {n}:\n        ...\n'}
     if pos == "imported_class":
         return {f"d{u}.py": f"class {n}:\n    def f(self) -> int:\n        ...\n", m: f"from vpkg.d{u} import {n}\n\n\ndef f{u}(a: {n}) -> None:\n    ...\n"}
     if pos == "module_name":
